@@ -150,7 +150,7 @@ def check_contacts(chk, fi: FuncInfo, fm: FlowMap, loop: ast.For) -> None:
     chk.expect(ok, "model-filter", fi.site(rl), "residues of other models are skipped first", "the residue loop does not start by skipping residues of other models", K(fi, "model-filter"))
 
 
-def check_find_pairs(chk) -> None:
+def check_find_pairs(chk, parts=("contacts", "angles", "labels", "selection")) -> None:
     repo = chk.repo
     c = spec("constants.json")["C03"]
     fi = repo.func(AN, "find_pairs")
@@ -158,8 +158,19 @@ def check_find_pairs(chk) -> None:
     fm = FlowMap(fi.node)
     inl = Inliner(fi.node)
     loop = kd_loop(chk, fi)
-    check_contacts(chk, fi, fm, loop)
     fold = Folder(repo, AN).fold
+    if "contacts" in parts:
+        check_contacts(chk, fi, fm, loop)
+        _contact_skips(chk, fi, fm, loop)
+    if "angles" in parts:
+        _angle_window(chk, fi, fm, inl, loop, fold, c)
+    if "labels" in parts:
+        _label_loop(chk, fi, fm, inl)
+    if "selection" in parts:
+        _selection_loop(chk, fi, fm, inl, fold, c)
+
+
+def _contact_skips(chk, fi, fm, loop) -> None:
 
     # ---- skips of the contact loop (closed world) -------------------------------------------------
     pats = {
@@ -194,7 +205,10 @@ def check_find_pairs(chk) -> None:
         d = [v for s, v in astq.assignments(loop, nm) if v is not None and any(s is x for x in loop.body)]
         chk.expect(len(d) == 1 and norm(d[0]) == want, "contact-roles", fi.site(loop), f"{nm} = {want}", f"{nm} is not looked up from the query index it is named after ({[norm(x) for x in d]})", K(fi, f"role:{nm}"))
 
-    # ---- angle window ---------------------------------------------------------------------------------
+
+
+def _angle_window(chk, fi, fm, inl, loop, fold, c) -> None:
+    appends = [a for a in astq.calls(loop, "append")]
     hb = [a for a in appends if astq.dotted(a.func.value) == "hydrogen_bonds"]
     if len(hb) != 1:
         raise AnalysisError("find_pairs: hydrogen_bonds.append site not found")
@@ -238,7 +252,9 @@ def check_find_pairs(chk) -> None:
         rec = hb[0].args[0] if hb[0].args else None
         chk.expect(rec is not None and norm(rec) == "(atom_i, atom_j, residue_i, residue_j)", "angle-record", fi.site(st), "a hydrogen bond records (atom_i, atom_j, residue_i, residue_j)", "hydrogen bond record is not (atom_i, atom_j, residue_i, residue_j)", K(fi, "hb-record"))
 
-    # ---- label loop --------------------------------------------------------------------------------------
+
+
+def _label_loop(chk, fi, fm, inl) -> None:
     ll = [l for l in fi.node.body if isinstance(l, ast.For) and astq.match(l.iter, "hydrogen_bonds") is not None]
     if len(ll) != 1:
         raise AnalysisError("find_pairs: label loop not found")
@@ -271,7 +287,9 @@ def check_find_pairs(chk) -> None:
                 ok = ok and sorted(norm(l.iter) for l in lps) == ["edges_i", "edges_j"] and {norm(l.target) + "<-" + norm(l.iter) for l in lps} == {"edge_i<-edges_i", "edge_j<-edges_j"}
     chk.expect(ok, "label-orientation", fi.site(ll), "labels are (lower, higher, c/t, edge of lower, edge of higher) for every edge letter combination", "labels are not oriented (lower residue first, edges swapped with the residues) over all edge letter combinations", K(fi, "orientation"), found=[norm(a.args[0]) for a in la])
 
-    # ---- selection loop --------------------------------------------------------------------------------------
+
+
+def _selection_loop(chk, fi, fm, inl, fold, c) -> None:
     sl = [l for l in fi.node.body if isinstance(l, ast.For) and isinstance(l.iter, ast.Call) and astq.callee_name(l.iter) == "most_common"]
     if len(sl) != 1:
         raise AnalysisError("find_pairs: selection loop over Counter.most_common() not found")
